@@ -38,6 +38,7 @@ PATH_SCHEMAS = [
     # without a top-level type (OpenAPI 3 only)
     ({"enum": ["a", "b"]}, "POther", True),
     ({"minimum": 3}, "POther", True),
+    ({"description": "free form", "title": "T"}, "PTop", False),  # annotations only: the accept-anything schema
 ]
 HEADER_SCHEMAS = [
     ({"type": "string"}, "PStrOnly", False),
@@ -58,6 +59,7 @@ QUERY_SCHEMAS = [
     ({"enum": [1, 2]}, "POther", True),
     ({"minimum": 3}, "POther", True),
     ({"anyOf": [{"type": "integer"}, {"type": "boolean"}]}, "POther", True),
+    ({"description": "free form", "title": "T"}, "PTop", False),  # annotations only: the accept-anything schema
 ]
 SCHEMAS = {"path": PATH_SCHEMAS, "header": HEADER_SCHEMAS, "cookie": HEADER_SCHEMAS, "query": QUERY_SCHEMAS}
 # (schema, can_negate)
@@ -103,6 +105,26 @@ def declared_schema(schema, version=3):
     return out
 
 
+def valid_example(loc, idx):
+    """A value that satisfies the parameter schema as declared (what a caller would pass explicitly)."""
+    sch = SCHEMAS[loc][idx][0]
+    if "enum" in sch:
+        v = sch["enum"][0]
+    elif sch.get("type") == "integer" or "minimum" in sch or "anyOf" in sch:
+        v = 5
+    elif sch.get("type") == "boolean":
+        v = True
+    else:
+        v = "v"
+    if loc in ("header", "cookie"):
+        return wire_text(v)  # header and cookie values are text
+    return v
+
+
+def empty_indices(loc):
+    return [i for i, (_, cls, _) in enumerate(SCHEMAS[loc]) if cls == "PTop"]
+
+
 def typed_indices(loc):
     return [i for i, (sch, _, _) in enumerate(SCHEMAS[loc]) if "type" in sch]
 MEDIA_OK = ["application/json", "text/plain", "application/xml"]
@@ -132,19 +154,32 @@ def gen_shape(rng, force=None):
             ps.append({"name": name, "schema_idx": idx, "required": True if loc == "path" else rng.random() < 0.5})
         shape["params"][loc] = ps
         # explicit argument: not given / {} / some of the names / all names / a name that is not a parameter
-        mode = rng.choice(["none", "none", "none", "empty", "partial", "full", "extra"])
+        mode = rng.choice(["none", "none", "none", "empty", "partial", "full", "extra", "empty_schema"])
+        ex_of = lambda plist: {p["name"]: valid_example(loc, p["schema_idx"]) for p in plist}  # noqa: E731
+        if shape["version"] == 3 and loc in ("path", "query") and rng.random() < 0.15:
+            # an accept-anything parameter ({} or annotations only) next to a typed one, supplied explicitly
+            ps = [
+                {"name": names[loc][0], "schema_idx": rng.choice(empty_indices(loc)), "required": True if loc == "path" else rng.random() < 0.6},
+                {"name": names[loc][1], "schema_idx": rng.choice([i for i in typed_indices(loc) if SCHEMAS[loc][i][2]]), "required": True if loc == "path" else rng.random() < 0.5},
+            ]
+            if rng.random() < 0.5:
+                ps.reverse()
+            shape["params"][loc] = ps
+            mode = "empty_schema"
         if mode == "none":
             ex = None
         elif mode == "empty":
             ex = {}
         elif mode == "partial":
-            ex = {p["name"]: "v" for p in ps[: max(0, len(ps) - 1)]} if ps else {"zz": "v"}
+            ex = ex_of(ps[: max(0, len(ps) - 1)]) if ps else {"zz": "v"}
         elif mode == "full":
-            ex = {p["name"]: "v" for p in ps}
+            ex = ex_of(ps)
+        elif mode == "empty_schema":
+            ex = ex_of([p for p in ps if SCHEMAS[loc][p["schema_idx"]][1] == "PTop"]) or (ex_of(ps[:1]) if ps else None)
         else:
             ex = {"zz": "1"}
             if ps and rng.random() < 0.5:
-                ex[ps[0]["name"]] = "v"
+                ex.update(ex_of(ps[:1]))
         shape["explicit"][loc] = ex
     kind = rng.random()
     if kind < 0.35:
@@ -257,6 +292,7 @@ class Observer:
         self.orig_mreject = M.reject
         self.n_cases = 0
         self.n_rejects = 0
+        self.excluded = {}
 
     def __enter__(self):
         H = self.H
@@ -304,6 +340,26 @@ class Observer:
 
         obs.M.reject = mutation_reject
 
+        # the schema handed to the strategy factory is the location schema AFTER the exclusion of explicit names
+        import functools
+
+        obs.orig_factories = (H.make_positive_strategy, H.make_negative_strategy, dict(H.GENERATOR_MODE_TO_STRATEGY_FACTORY))
+
+        def spy(fn):
+            @functools.wraps(fn)
+            def inner(schema, operation_name, location, media_type, generation_config, custom_formats=None):
+                if location != "body":
+                    obs.excluded[location] = {"properties": list(schema.get("properties", {})), "required": list(schema.get("required", []))}
+                return fn(schema, operation_name, location, media_type, generation_config, custom_formats)
+
+            return inner
+
+        spied = {obs.orig_factories[0]: spy(obs.orig_factories[0]), obs.orig_factories[1]: spy(obs.orig_factories[1])}
+        H.make_positive_strategy = spied[obs.orig_factories[0]]
+        H.make_negative_strategy = spied[obs.orig_factories[1]]
+        for k, v in list(H.GENERATOR_MODE_TO_STRATEGY_FACTORY.items()):
+            H.GENERATOR_MODE_TO_STRATEGY_FACTORY[k] = spied[v]
+
         H.get_parameters_strategy = get_parameters_strategy
         H._get_body_strategy = _get_body_strategy
         H.reject = reject
@@ -313,6 +369,8 @@ class Observer:
         H = self.H
         H.get_parameters_strategy, H._get_body_strategy, H.reject = self.orig
         self.M.reject = self.orig_mreject
+        H.make_positive_strategy, H.make_negative_strategy = self.orig_factories[0], self.orig_factories[1]
+        H.GENERATOR_MODE_TO_STRATEGY_FACTORY.update(self.orig_factories[2])
         return False
 
 
@@ -346,6 +404,7 @@ def run_operation(obs, shape, mode, modes, seed_value, n):
     obs.state = {}
     obs.n_cases = 0
     obs.n_rejects = 0
+    obs.excluded = {}
 
     @seed(seed_value)
     @settings(max_examples=n, database=None, derandomize=False, deadline=None, suppress_health_check=list(HealthCheck), phases=[Phase.generate])
@@ -584,15 +643,22 @@ def oracle_case(chk, shape, event, mode, stats):
                 stats["absent_labelled_negative"] += 1
                 chk.fail("absent component labelled negative", inp, {"component": CONTAINER[loc]}, region="absent_part_labelled_negative")
             continue
-        if shape["explicit"][loc]:
-            continue  # explicit values are the caller's; only wholly generated values are judged
+        explicit = shape["explicit"][loc] or {}
         lschema = location_schema(shape, loc)
         judged = {k: (unquote_plus(v) if loc == "path" and isinstance(v, str) else v) for k, v in dict(value).items()} if hasattr(value, "items") else value
         ok = jsonschema.Draft4Validator(lschema).is_valid(judged)
         stats["parts_checked"] += 1
         if label == "NEGATIVE":
-            if ok:
+            if ok and explicit:
+                # the MERGED part (explicit + generated) conforms to the declared schema of the whole location;
+                # the region is decided by the model for this very input (after the run, in one Coq batch)
+                stats["merged_valid_negative"] += 1
+                stats.setdefault("_pending_merged", []).append((shape, event, mode, loc, {"component": CONTAINER[loc], "value": repr(value)[:200]}))
+            elif ok:
                 chk.fail("component labelled negative is valid for its schema", inp, {"component": CONTAINER[loc], "value": repr(value)[:200]})
+            elif explicit:
+                neg_present_invalid += 1
+                all_neg_wire_valid = False  # text-form reading only for wholly generated parts
             else:
                 neg_present_invalid += 1
                 if wire_valid_location(lschema, judged):
@@ -600,7 +666,8 @@ def oracle_case(chk, shape, event, mode, stats):
                 else:
                     all_neg_wire_valid = False
         else:
-            if not ok and not wire_valid_location(lschema, judged):
+            explicit_ok = all(k in lschema["properties"] and (jsonschema.Draft4Validator(lschema["properties"][k]).is_valid(v) or wire_valid_value(lschema["properties"][k], v)) for k, v in explicit.items())
+            if explicit_ok and not ok and not wire_valid_location(lschema, judged):
                 chk.fail("component labelled positive violates its schema", inp, {"component": CONTAINER[loc], "value": repr(value)[:200]})
     blabel = comps.get("body")
     if blabel is not None and not shape["body_explicit"] and shape["body"] is not None:
@@ -625,6 +692,29 @@ def oracle_case(chk, shape, event, mode, stats):
         chk.fail("negative case is valid once values are turned into text", inp, region="coercion_gap")
 
 
+def resolve_merged(chk, stats):
+    """Merged (explicit + generated) parts labelled negative although valid: the region is the MODEL's verdict on the exact input."""
+    pend = stats.pop("_pending_merged", [])
+    if not pend:
+        return
+    exprs = []
+    for shape, event, mode, loc, detail in pend:
+        rec = event["state"].get(loc)
+        exprs.append(f"draw_overwrites_explicit {c_loc(shape, loc, None if rec is None else rec['value'])}")
+    for (shape, event, mode, loc, detail), over in zip(pend, core.coq_eval(IMPORTS, exprs)):
+        chk.fail(
+            "merged component (explicit + generated) labelled negative is valid for the declared schema of its location",
+            event_input(shape, event, mode, None), detail, region="explicit_overwritten_by_draw" if over is True else None,
+        )
+
+
+def code_location_schema_names(shape, loc):
+    """Names and required list of the location schema before exclusion (parameters_to_json_schema + the path rule)."""
+    names = [p["name"] for p in shape["params"][loc]]
+    required = list(names) if loc == "path" else [p["name"] for p in shape["params"][loc] if p["required"]]
+    return names, required
+
+
 def truly_negatable(shape):
     """Independent reading: can some input of the operation be violated?  Returns (bool, only_required_string_headers)."""
     value_level = False
@@ -647,6 +737,7 @@ def stage_labels(chk, n_ops, n_examples):
         "operations": 0, "events": 0, "cases": 0, "skips": 0, "rejects": 0, "raises": 0, "unsat": 0,
         "parts_checked": 0, "absent_labelled_negative": 0, "notset_body_labelled_negative": 0,
         "wire_valid_negative_parts": 0, "cases_valid_on_the_wire": 0, "skip_although_negatable": 0, "unsat_instead_of_skip": 0,
+        "merged_valid_negative": 0, "exclusion_checks": 0,
     }
     corpus = [json.loads(p.read_text()) for p in sorted((core.VERIF / "corpus" / "C02").glob("shape_*.json"))]
     jobs = [(c["shape"], c.get("mode", "Neg"), c.get("modes", ["Neg"])) for c in corpus]
@@ -660,10 +751,14 @@ def stage_labels(chk, n_ops, n_examples):
         else:
             jobs.append((shape, "Pos", rng.choice([["Pos"], ["Pos", "Neg"]])))
     pending = []
+    excl_jobs = []
     with Observer() as obs:
         for shape, mode, modes in jobs:
             events, final, _ = run_operation(obs, shape, mode, modes, rng.getrandbits(32), n_examples)
             stats["operations"] += 1
+            for loc, got in obs.excluded.items():
+                names, required = code_location_schema_names(shape, loc)
+                excl_jobs.append((shape, loc, list(shape["explicit"][loc] or {}), names, required, got))
             chk.count(f"final:{final.split(':')[0]}:{mode}")
             if final == "unsat":
                 stats["unsat"] += 1
@@ -713,6 +808,20 @@ def stage_labels(chk, n_ops, n_examples):
         elif ev["kind"] == "case":
             chk.sample({"mode": mode, "modes": modes, "explicit": shape["explicit"], "labels": {k: v["label"] for k, v in impl["parts"].items()}})
     stats["distinct_observations"] = len(pending)
+    resolve_merged(chk, stats)
+    # the exclusion step of get_parameters_strategy against Model_C02.exclude_names
+    exprs = []
+    for shape, loc, excluded, names, required, got in excl_jobs:
+        sch = {"properties": {n: {} for n in names}, "additionalProperties": False, "type": "object", "required": required}
+        r = f"(exclude_names {clist([cstr(n) for n in excluded], 'str')} {c_kws(sch)})"
+        exprs.append(f"(map fst (props_of {r}), required_of {r})")
+    for (shape, loc, excluded, names, required, got), (m_props, m_req) in zip(excl_jobs, core.coq_eval(IMPORTS, exprs)):
+        stats["exclusion_checks"] += 1
+        mod = {"properties": [pstr(x) for x in m_props], "required": [pstr(x) for x in (popt(m_req) or [])]}
+        chk.seen({"exclusion": [loc, excluded, names, required]}, bool(excluded))
+        if got != mod:
+            chk.disagree("get_parameters_strategy exclusion of explicit names vs Model_C02.exclude_names",
+                         {"location": loc, "parameters": names, "required": required, "explicit_names": excluded}, got, mod)
     return stats
 
 
@@ -1178,13 +1287,14 @@ def replay_shape(shape, mode="Neg", modes=("Neg",), seeds=(0, 1, 2, 3), n=20):
     """Re-runs one operation shape on the implementation through the case oracle; returns the failures found."""
     chk = core.Check("C02", "quick", 0)
     chk.findings = []  # every failing part is reported, listed region or not
-    stats = {k: 0 for k in ("parts_checked", "absent_labelled_negative", "notset_body_labelled_negative", "wire_valid_negative_parts", "cases_valid_on_the_wire")}
+    stats = {k: 0 for k in ("parts_checked", "absent_labelled_negative", "notset_body_labelled_negative", "wire_valid_negative_parts", "cases_valid_on_the_wire", "merged_valid_negative")}
     with Observer() as obs:
         for sd in seeds:
             events, final, _ = run_operation(obs, shape, mode, list(modes), sd, n)
             for ev in events:
                 if ev["kind"] == "case" and mode == "Neg":
                     oracle_case(chk, shape, ev, mode, stats)
+    resolve_merged(chk, stats)
     return chk.failures
 
 
